@@ -52,6 +52,9 @@ def main():
             out['patch_tail'] = o[-300:]
             print(json.dumps(out)); return
         rc, o, _ = run([PY, '-m', 'pytest', '-q', '-x', '-p', 'no:cacheprovider'], scratch)
+        if rc != 0:
+            # three of the repository's tests draw from unseeded generators and fail now and then: confirm once
+            rc, o, _ = run([PY, '-m', 'pytest', '-q', '-x', '-p', 'no:cacheprovider'], scratch)
         out['tests'] = o.strip().splitlines()[-1] if o.strip() else ''
         out['tests_rc'] = rc
         rc, o, _ = run([PY, '-W', 'ignore', '_demo/demo.py'], scratch, env)
